@@ -125,7 +125,8 @@ def run_doc(t, term, override, sig_prefix, case, forms=("xml", "sgml")):
         try:
             with warnings.catch_warnings(record=True) as w:
                 warnings.simplefilter("always")
-                inst = wire.lib_convert(data)
+                # the v1 renderings go through one OFXTree object re-used for every document of the process
+                inst = wire.lib_convert_reused(data) if form.startswith("sgml") else wire.lib_convert(data)
             unknown = [str(x.message) for x in w if "nknown" in str(x.message)]
         except Exception as e:
             t.fail(f"{sig_prefix}|{form}|valid-document-refused-{type(e).__name__}", dict(case, form=form), f"{type(e).__name__}: {str(e)[:300]}")
@@ -234,7 +235,7 @@ def run(ctx):
         "classes": tally.counts.get("classes", 0),
         "exhaustive": True,
     }
-    return {"tally": tally, "coverage": cov, "assumptions": ["documents are rendered by vf.ref_sgml/ref_header, not by the library; reference type rules trusted (self-checked against the writer)",
+    return {"tally": tally, "coverage": cov, "assumptions": ["the v1 renderings are read through one re-used OFXTree object per worker, the others through a fresh one", "documents are rendered by vf.ref_sgml/ref_header, not by the library; reference type rules trusted (self-checked against the writer)",
         "vf/ref_enums.json (token tables of the pinned tree) stands in for the specification's enumerations: every token in it must still be read; tokens added since are not objected to"]}
 
 
